@@ -754,6 +754,11 @@ def run_cases(ctx, cases, stream='lay', shrink=True, outside=False):
             r = res[mode]
             impl = {'err': r['err']} if 'err' in r else {'ok': r['ok']}
             mod = model_bits(mm['parsed'])
+            if outside:
+                # outside the domain neither the theorems nor the statement speak: the comparison is information, not a verdict
+                # (a false alarm on the unchanged tree, quick seed 36: a column called `char` next to a second bracketed declaration)
+                ctx.count('%s:model-vs-real:%s' % (stream, 'same' if impl == mod else 'differs'))
+                continue
             if impl != mod:
                 ctx.disagree('%s-real-%s' % (stream, mode), case, impl, mod)
             elif 'sym' in r:
@@ -763,7 +768,9 @@ def run_cases(ctx, cases, stream='lay', shrink=True, outside=False):
         mm = m['txt'] if m['txt'] is not None else m['bin']
         r = res['raw']
         impl = {'err': r['err']} if 'err' in r else {'ok': r['ok']}
-        if impl != model_raw(mm['raw']):
+        if outside:
+            ctx.count('%s:model-vs-real-raw:%s' % (stream, 'same' if impl == model_raw(mm['raw']) else 'differs'))
+        elif impl != model_raw(mm['raw']):
             ctx.disagree(stream + '-real-raw', case, impl, model_raw(mm['raw']))
 
 
